@@ -165,6 +165,14 @@ def cases_http(tier):
     for i, (w, body) in enumerate(cases_jsonclass("quick")):
         if i % 3 == 0:
             yield (ws[0], body)
+    # every non-JSON text (byte order marks, control characters, other encodings' leftovers), also in front of a valid request
+    for t in B.NONJSON:
+        for w in ws:
+            yield (w, t)
+    for prefix in ("\ufeff", "\ufeff\ufeff", "\u200b", "\x00", "\ufffe"):
+        for w in ws:
+            yield (w, prefix + B.SEEDS[0])
+            yield (w, prefix + "[" + B.SEEDS[1] + "]")
     for seed in B.SEEDS[:6] + ["", "5", "[]"]:
         for w in ws:
             try:
